@@ -40,14 +40,30 @@ func (r *ComDoc) ReadStream(e *DirEnt) (io.Reader, error) {
 		remaining:  e.StreamSize,
 		nextSector: e.NextSector,
 	}
+	// The size comes from the file, and the chain of sectors might loop, so
+	// make sure the stream isn't bigger than the place it is stored in.
+	var maxSectors int
 	if e.StreamSize < r.Header.MinStdStreamSize {
 		sr.sectorSize = r.ShortSectorSize
 		sr.sat = r.SSAT
 		sr.readSector = r.readShortSector
+		sectors, err := r.shortStreamSectors()
+		if err != nil {
+			return nil, err
+		}
+		maxSectors = len(sectors) * (r.SectorSize / r.ShortSectorSize)
 	} else {
 		sr.sectorSize = r.SectorSize
 		sr.sat = r.SAT
 		sr.readSector = r.readSector
+		maxSectors = len(r.SAT)
+		if r.writer == nil && r.sectorCount < maxSectors {
+			// the file doesn't grow while it is only being read
+			maxSectors = r.sectorCount
+		}
+	}
+	if uint64(e.StreamSize) > uint64(maxSectors)*uint64(sr.sectorSize) {
+		return nil, errors.New("stream size is larger than the file")
 	}
 	sr.buf = make([]byte, sr.sectorSize)
 	return sr, nil
